@@ -1,7 +1,7 @@
 import H264.SeiPayloadsFwd
-import H264.C20
-import H264.Tables2
-import H264.TblProof
+import H264.C20T35
+import H264.Tables2C11
+import H264.TblProofC11
 /-! # C11 — SEI payload parsers (buffering period, pic timing, T.35) recover encoded values
 
 Models: `SeiPayload.readPicTiming s`, `readBufferingPeriod spsById`, `readT35` mirror `PicTiming::read`,
